@@ -335,6 +335,15 @@ func genC11(r *Rand, tier string, i int) *h.Scenario {
 		sc.Main = append(sc.Main[:pos:pos], append([]h.Op{op}, sc.Main[pos:]...)...)
 	}
 	addWatchers(r, sc)
+	// a render error while finished bars are still displayed: it cancels the bars, it does not
+	// rewrite what a finished bar has already reported
+	if r.Bool(0.15) && len(sc.Bars) > 0 {
+		site := []int{h.FaultFill, h.FaultFill, h.FaultExt, h.FaultOutWrite}[r.Intn(4)]
+		sc.Faults = []h.Fault{{Site: site, Bar: r.Intn(len(sc.Bars)), K: r.Range(1, 9)}}
+		if site == h.FaultOutWrite {
+			sc.Faults[0].Bar = 0
+		}
+	}
 	return sc
 }
 
